@@ -328,7 +328,8 @@ theorem dispatchSt_ne_panic (tbl : TxnTable) (m : Msg) : (dispatchSt tbl m).1 
       路 exact unmarshal_ne_panic .setPeerBw p
       路 exact unmarshal_ne_panic .userControl p
       路 simp
-      路 split
+      路 unfold decodeWith
+        split
         路 next k _ _ => exact unmarshal_ne_panic k p
         路 simp
         路 next h =>
